@@ -804,6 +804,80 @@ def rule_c(F):
     return res
 
 
+def rule_m(F):
+    """C05.M: changing the limit keeps the accounting invariants. In every function that stores a new value into the
+    allocator's `limit` (the constructor aside): (1) the usage is known to fit under the *new* limit - the VM is cleared on
+    every path to the store, or whatever decides not to clear depends on the new value (the function's parameter), not on
+    the limit still stored in the allocator; (2) the collection threshold is derived again from the new limit on every path
+    from the store to the return (it is limit / 4: a threshold computed from the old limit makes the VM collect - and
+    account - differently from a new VM with the same limit until the next clear)."""
+    res = []
+    n = 0
+    for f in F.fns:
+        if not f.mir or f.is_closure or not (f.path.startswith("vm::") or f.path.startswith("alloc::")) or f.name in ("new", "default"):
+            continue
+        stores = atomic_calls(f, ("store",), "limit")
+        if not stores:
+            continue
+        cfg = f.cfg
+        du = DefUse(f)
+        rets = cfg.return_blocks()
+        for k, (bi, t) in enumerate(stores):
+            n += 1
+            # (2) threshold recomputed afterwards
+            resets = set(b for b, t2 in mu.calls(f) if any(x.endswith("reset_gc_threshold") for x in callee_names(t2["func"])))
+            resets |= set(b for b, _t2 in atomic_calls(f, ("store",), "next_gc"))
+            key2 = "C05/M/%s/threshold-follows-the-new-limit" % f.name
+            if t.get("target") is not None and cfg.every_path_passes(t["target"], rets, resets):
+                res.append(ok("C05.M", key2, f.loc(t.get("ln")), "next_gc is derived again after the limit was stored"))
+            else:
+                res.append(bad("C05.M", key2, f.loc(t.get("ln")),
+                               "%s stores a new memory limit and can return without deriving the collection threshold from it again: next_gc "
+                               "still reflects the old limit (a quarter of it), so a VM that was just given limit L collects - and accounts - "
+                               "unlike a new or a cleared VM with limit L, until the next clear()" % f.name))
+            # (1) usage fits under the new limit
+            key1 = "C05/M/%s/usage-fits-the-new-limit" % f.name
+            clears = [b for b, t2 in mu.calls(f) if any(x.endswith("RuntimeData::clear") or x.endswith("::clear_objects") for x in callee_names(t2["func"]))]
+            if any(cfg.dominates(c, bi) and c != bi for c in clears):
+                res.append(ok("C05.M", key1, f.loc(t.get("ln")), "the VM is cleared on every path to the store of the new limit"))
+                continue
+            # conditional / no clearing: what decides must involve the parameter carrying the new limit
+            new_l = op_local(t["args"][1]) if len(t["args"]) > 1 else None
+            kind, payload = du.trace_back(new_l) if new_l is not None else (None, None)
+            param = payload if kind == "arg" else None
+            decided_on_param = False
+            for c in clears:
+                for g in sorted(cfg.dom[c], key=lambda x: -len(cfg.dom[x])):
+                    tt = f.blocks[g]["term"]
+                    if g != c and tt["k"] == "switch":
+                        dl = op_local(tt["discr"])
+                        leaves = slice_leaves(f, du, dl, use_block=g) if dl is not None else []
+                        for lf in leaves:
+                            if lf[0] == "place" and param is not None and lf[1]["l"] == param:
+                                decided_on_param = True
+                        # direct use of the parameter in the comparison
+                        for st in f.blocks[g]["stmts"]:
+                            if st["k"] == "assign" and st["place"]["l"] == dl and st["rv"]["k"] == "bin":
+                                for side in ("l", "r"):
+                                    sl = op_local(st["rv"][side])
+                                    if sl is not None:
+                                        kk, pp = du.trace_back(sl)
+                                        if kk == "arg" and pp == param:
+                                            decided_on_param = True
+                        break
+            if decided_on_param:
+                res.append(ok("C05.M", key1, f.loc(t.get("ln")), "clearing is decided by comparing the usage with the new limit"))
+            else:
+                res.append(bad("C05.M", key1, f.loc(t.get("ln")),
+                               "%s stores a new memory limit without clearing the VM on every path, and what decides whether to clear does not "
+                               "depend on the new value (it is evaluated against the limit still stored in the allocator, which the usage never "
+                               "exceeds): lowering the limit below the size of the live data leaves accounted usage above the configured limit"
+                               % f.name))
+    if n < 1:
+        raise AnchorMissing("functions that store a new memory limit")
+    return res
+
+
 def _c02_rule_k(F):
     from rules import c02 as _c02
     return _c02.rule_k(F)
@@ -815,6 +889,7 @@ def _c02_rule_u(F):
 
 
 RULES = [
+    Rule("C05.M", rule_m, 2, "changing the limit keeps usage <= limit and re-derives the threshold"),
     Rule("C05.K", shared(_c02_rule_k, "C02.K", "C05.K"), 9, "guarded objects stay live: the collector never overwrites Protected (shared with C02.K)"),
     Rule("C05.U", shared(_c02_rule_u, "C02.U", "C05.U"), 1, "survivors are unmarked after every collection, so the next one reclaims what became garbage (shared with C02.U)"),
     Rule("C05.A", rule_a, 5, "charge symmetry and who-may-write of the allocator counters"),
